@@ -41,11 +41,15 @@ def run(ctx):
     path, total = c14.generate(ctx, q, '{"V1", "V2", "V3"}', extra=[known_scope])
     b = vlib.harness_bin("c14")
     mp = ctx.path("mismatches.ndjson")
-    rc, out, wall = vlib.sh([b, "replay", path, mp, "validate=1", "samples=%d" % (40 if q else 200)], timeout=3000)
+    # the replay's amplification stage (streams of 62..320 collections concatenated from accepted behaviours, see
+    # checks/c14.py) is submitted to the validator as well
+    rc, out, wall = vlib.sh([b, "replay", path, mp, "validate=1", "samples=%d" % (40 if q else 200), "seed=%d" % ctx.seed,
+                             "amplify=%d" % (2 if q else 25)], timeout=3000)
     summ = json.loads(out.strip().splitlines()[-1])
     ctx.stage("replay validate", wall, **summ)
     if summ["behaviours"] != total or summ["distinct_documents"] < 1000 or summ["max_nodes"] < 20:
         raise vlib.ToolError("replay is vacuous: %s" % summ)
+    ctx.cov["amplified_streams"] = summ.get("amplified_streams", 0)
     c14.report_mismatches(ctx, mp, ("validate", "validate-panic"))
     ncli = c14.cli_stage(ctx, mp + ".samples", validate=True, limit=40 if q else 200)
 
